@@ -1473,7 +1473,14 @@ class ApertureStats:
                 covar[idx, 0, 0] += delta
                 covar[idx, 1, 1] += delta
                 covar_det = np.linalg.det(covar)
-                idx = np.where(covar_det < delta2)[0]
+
+                # a matrix whose determinant turns negative cannot be
+                # regularised (and would otherwise loop forever)
+                idx_neg = np.where(covar_det < 0)[0]
+                covar[idx_neg] = np.array([[np.nan, np.nan],
+                                           [np.nan, np.nan]])
+
+                idx = np.where((covar_det >= 0) & (covar_det < delta2))[0]
         return covar
 
     @lazyproperty
